@@ -68,6 +68,14 @@ def ens_exit_down(self, exc):
     return exc is None and not hw.ce and (hw.reg[0] & 2) == 0
 
 
+def req_mixin(self):
+    return shadows_wf(self._rf24)
+
+
+def req_mixin_inv(self):
+    return inv(self._rf24)
+
+
 def ref_mixin_enter(self):
     ref_enter(self._rf24)
     return self
@@ -93,11 +101,11 @@ CONTRACTS = [
              refines=R + "ref_exit", view=ST + "view_cfg", ensures=[("inv", ST + "post_inv"), ("down", R + "ens_exit_down")],
              policy=POL, props=["C09"]),
     Contract("C09.mixin.enter", "mixins:RadioMixin.__enter__", {"self": Obj("mixins:RadioMixin", {"_rf24": rf24_schema()})},
-             requires=[], refines=R + "ref_mixin_enter", view=R + "view_mixin",
-             policy={"rf24:RF24.__enter__": "ref:" + R + "ref_enter"}, props=["C09"]),
+             requires=[R + "req_mixin"], refines=R + "ref_mixin_enter", view=R + "view_mixin",
+             policy={"rf24:RF24.__enter__": "ref:" + R + "ref_enter|pre:" + R + "shadows_wf"}, props=["C09"]),
     Contract("C09.mixin.exit", "mixins:RadioMixin.__exit__", {"self": Obj("mixins:RadioMixin", {"_rf24": rf24_schema()})},
-             requires=[], refines=R + "ref_mixin_exit", view=R + "view_mixin",
-             policy={"rf24:RF24.__exit__": "ref:" + R + "ref_exit"}, props=["C09"]),
+             requires=[R + "req_mixin_inv"], refines=R + "ref_mixin_exit", view=R + "view_mixin",
+             policy={"rf24:RF24.__exit__": "ref:" + R + "ref_exit|pre:spec.rf24_state:inv"}, props=["C09"]),
 ]
 
 
